@@ -388,6 +388,27 @@ def gen_huge_token(rng):
     return ('btcdeb', 'huge-token', [], spec, 'pipe', None)
 
 
+def gen_sig_context(rng):
+    """real spends whose signatures carry undefined hash-type bytes (0x00, 0x04, 0x20 ...: consensus-legal without STRICTENC) or
+    stand in the wrong order of a multisig - the paths on which the signature checker formats and logs what it was given"""
+    otype = rng.choice(['p2pkh', 'p2pk', 'multisig', 'multisig', 'p2sh-multisig', 'p2sh-multisig', 'p2wpkh', 'p2wsh', 'p2sh-p2wsh'])
+    sat = rng.choice([x for x in ('valid', 'valid', 'wrong-order', 'wrong-key', 'missing-sig') if x in c03.SATS[otype]])
+    sc = c03.build(rng, otype, sat)
+    tx, idx = sc['tx'], sc['idx']
+    ht = rng.choice([0x00, 0x00, 0x04, 0x20, 0x44, 0x80, 0xff, 0x01])
+
+    def mut(b):
+        return b[:-1] + bytes([ht]) if len(b) >= 60 and b[:1] == b'\x30' else b
+    if tx.wit and tx.wit[idx]:
+        tx.wit[idx] = [mut(x) for x in tx.wit[idx]]
+    ops = decode_all(tx.vin[idx][2]) or []
+    tx.vin[idx][2] = b''.join(push_only(mut(d)) if o <= OP_PUSHDATA4 else bytes([o]) for o, d in ops)
+    args = ['--tx=' + rtx.ser_tx(tx).hex(), '--txin=' + rtx.ser_tx(sc['fund']).hex()]
+    if rng.random() < 0.7:
+        args.insert(0, '--modify-flags=' + rng.choice(['-STRICTENC', '-STRICTENC,-NULLFAIL', '-STRICTENC,-DERSIG,-LOW_S,-NULLFAIL']))
+    return ('btcdeb', 'sig-context:%s/%s' % (otype, sat), args, b'', rng.choice(['ptyin', 'ptyin', 'ptyout']), None)
+
+
 def gen_verify_sig(rng):
     """the signature-verification transforms on every shape of public key (x-only, compressed, uncompressed, hybrid prefixes,
     wrong lengths) and signature (Schnorr, DER, compact), inline in btcc / btcdeb scripts and through `tf`"""
@@ -409,7 +430,7 @@ def gen_verify_sig(rng):
     return ('btcdeb', 'verify-sig', ['OP_1'], ('tf %s 0x%s 0x%s 0x%s\n' % (tfn, msg.hex(), key.hex(), sig.hex())).encode(), 'repl', None)
 
 
-GENS = [(gen_btcc, 8), (gen_btcdeb_cli, 16), (gen_repl, 12), (gen_tap, 8), (gen_ext, 4), (gen_verify_sig, 2), (gen_huge_token, 1)]
+GENS = [(gen_btcc, 8), (gen_btcdeb_cli, 16), (gen_repl, 12), (gen_tap, 8), (gen_ext, 4), (gen_verify_sig, 2), (gen_huge_token, 1), (gen_sig_context, 2)]
 
 
 def line_editor_safe(stdin, mode):
@@ -446,9 +467,16 @@ def worker(job):
             if tool == 'btcdeb' and mode in ('pty', 'repl') and rng.random() < 0.15:
                 # fault injection: the interactive loop appends every command to ./.btcdeb_history - here that file cannot be opened
                 # (the name is taken by a directory; works for root too, unlike a read-only directory)
-                os.makedirs(os.path.join(sub, '.btcdeb_history'), exist_ok=True)
-                history = 'cannot-be-opened'
-                part.count('fault_injection', 'history-file-cannot-be-opened')
+                if rng.random() < 0.5:
+                    os.makedirs(os.path.join(sub, '.btcdeb_history'), exist_ok=True)
+                    history = 'cannot-be-opened'
+                else:
+                    # ... or it is there already with content no session of btcdeb wrote: empty lines, NUL bytes, lines longer than the reader's buffer
+                    with open(os.path.join(sub, '.btcdeb_history'), 'wb') as fh:
+                        for _ in range(rng.choice([1, 3, 20])):
+                            fh.write(rng.choice([b'\n', b'\x00\n', b'\x00step\n', b'step\n', b'exec ' + b'OP_1 ' * 400 + b'\n', b'x' * 1023 + b'\n', b'x' * 1024 + b'\n', b'\\\n', b'tf echo "a\\', rb(rng, 40) + b'\n', b'no newline at the end']))
+                    history = 'hostile-content'
+                part.count('fault_injection', 'history-file-' + history)
             r = proc.run([os.path.join(bindir, tool)] + args, sub, stdin=stdin, mode=mode, timeout=40 if not spec else 300, extra_env=env)
             shutil.rmtree(sub, ignore_errors=True)
             part.evaluations += 1
@@ -477,7 +505,7 @@ def memcheck_worker(job):
     part = Partial()
     wd = scratch('c15v')
     try:
-        pool = [gen_btcc, gen_btcdeb_cli, gen_btcdeb_cli, gen_repl, gen_tap]
+        pool = [gen_btcc, gen_btcdeb_cli, gen_btcdeb_cli, gen_repl, gen_tap, gen_sig_context, gen_sig_context, gen_verify_sig]
         for i in range(n):
             g = rng.choice(pool)
             try:
@@ -659,8 +687,10 @@ def main():
             print(json.dumps({k: v for k, v in w.items() if k != 'run'}, indent=1)[:3000])
             if w.get('tool'):
                 wd = scratch('c15r')
-                if w.get('history_file'):
+                if w.get('history_file') == 'cannot-be-opened':
                     os.makedirs(os.path.join(wd, '.btcdeb_history'), exist_ok=True)
+                elif w.get('history_file'):
+                    open(os.path.join(wd, '.btcdeb_history'), 'wb').write(b'\x00\n\x00step\n' + b'x' * 1024 + b'\n')
                 r = proc.run([os.path.join(bindir, w['tool'])] + w['argv'], wd, stdin=expand_stdin(w['stdin_recipe']) if w.get('stdin_recipe') else w.get('stdin', '').encode('latin1'), mode=w.get('mode', 'pipe'), timeout=300)
                 print('re-run:', r.rc, r.sig, r.timeout, r.crash_key(w['tool']) if r.abnormal else 'terminates normally')
                 print(r.stderr.decode('latin1')[-1500:])
